@@ -49,7 +49,17 @@ func (*StringCastingMangler) Unmangle(sf reflect.StructField, vs []FieldValueTup
 		castTo = sf.Type.Elem()
 	}
 
-	return parse.String(str, castTo)
+	v, err := parse.String(str, castTo)
+	if err != nil {
+		return v, err
+	}
+	if k := castTo.Kind(); sf.Type.Kind() == reflect.Ptr && (k == reflect.Slice || k == reflect.Map) {
+		// user-declared pointer to a slice or map: parse.String returned the collection itself
+		p := reflect.New(castTo)
+		p.Elem().Set(v)
+		return p, nil
+	}
+	return v, nil
 }
 
 // ShouldRecurse always returns true in order to walk nested structs.
